@@ -10,13 +10,13 @@ CHECKS = {
    text='bounded, solver-decided: the parser and renderer are executed with every HashMap/HashSet iteration (and every tie of an unstable sort) forking over all orders; per path z3 shows the rendered text equal to the text of the canonical order, for all documents of the skeletons incl. names whose identifiers collide',
    design='§4 C05, §2.2', technique='symbolic execution with iteration order as a nondeterministic choice (all k! orders), 2-run product decided by z3; counterexamples confirmed by repeated native runs with fresh hash seeds'),
  'C06': dict(
-   text='bounded, solver-decided: into_struct followed by extend_struct on symbolic document sequences (K <= 3, 4 in one thorough family); per path z3 shows (a) the result equals the union oracle, (b) every step only grows the schema, (c) the schema equals that of every other supply order, of every single repetition and of every interleaving with an element-less document, (d) a reader error at any cut of the last document yields Err',
+   text='bounded, solver-decided: into_struct followed by extend_struct on symbolic document sequences (K <= 3, 4 in one thorough family); per path z3 shows (a) the result equals the union oracle, (b) every step only grows the schema, (c) the schema equals that of every other supply order, of every single repetition and of every interleaving with an element-less document, (d) a reader error at any cut of the last document yields Err, (e) rendering the intermediate structure between the steps changes nothing; the inductive step of C03 covers any number of further documents at one level',
    design='§4 C06', technique='symbolic execution of the real source over document sequences + z3 (oracle and 2-run products per path); native replay'),
  'C11': dict(
    text='bounded, solver-decided at the reader-event interface: for every document of the skeletons with arbitrary incidental detail (element form, Text/CDATA, contents, attribute values, comments/PI/declaration/DOCTYPE at every slot) z3 shows the rendered text equal to that of the canonical representative of its structure class (all elements expanded, Text only, no noise), hence invariant under every listed rewrite; buffer capacities are inside quick_xml and only sampled natively',
    design='§4 C11', technique='symbolic execution + 2-run product (arbitrary detail vs canonical representative), output equality decided by z3 per path'),
  'C07': dict(
-   text='bounded, solver-decided for this repository\'s code: (B) every sequence of <= N reader events of any kind in any order (errors, stray End, invalid UTF-8, attribute errors, empty/colon-only/multi-byte names) is executed symbolically through into_struct/extend_struct and the rendering of every Ok tree with unconstrained option strings - a panic is a path outcome and none is reachable; (A) Kani proves starts_with_xmlns / remove_namespace panic-free for every valid UTF-8 string within a byte bound. Byte-level tokenising, BufRead chunking and stack depth are NOT claimed (quick_xml / machine stack; sampled natively only)',
+   text='bounded, solver-decided for this repository\'s code: (B) every sequence of <= N reader events of any kind in any order (errors, stray End, invalid UTF-8, attribute errors, empty/colon-only/multi-byte names) is executed symbolically through into_struct/extend_struct and the rendering of every Ok tree with unconstrained option strings - a panic is a path outcome and none is reachable; (A) Kani proves starts_with_xmlns panic-free for every valid UTF-8 string of <= 7 bytes (8 thorough) and remove_namespace for every valid UTF-8 string of 1..4 bytes (5 thorough). Byte-level tokenising, BufRead chunking and stack depth are NOT claimed (quick_xml / machine stack; sampled natively only)',
    design='§4 C07', engine='rsym+kani', technique='symbolic execution over arbitrary event sequences (z3) + Kani/CBMC on the string-slicing kernels',
    note='trusted base: rsym + reader-event model, z3, Kani/CBMC, tools/replay. Partial claim: the bytes->events layer (quick_xml) and stack depth are outside, stated in the evidence'),
  'C08': dict(
@@ -49,7 +49,7 @@ CHECKS = {
    text='bounded, solver-decided: trees from templates (same name under two parents, at several depths, under itself, next to unique names, merged from two documents) with solver-chosen names; PascalCase from interpreting convert_string; per path: first struct is the root\'s, every struct name is nearest-ancestors + own (+suffix), names occurring at a single position are unqualified',
    design='§4 C14', technique='symbolic execution of compute_name_hints / expand_name / inner_to_serde_struct with solver-chosen names; naming clauses decided per path'),
  'C03': dict(
-   text='bounded, solver-decided: every feasible path of the parser over symbolic document skeletons (names, presence, repetition, element form, text kind, attribute subsets, document split symbolic) is executed from /repo\'s source and z3 shows PC and not(two-sided inference oracle) unsatisfiable; holds for every document inside the listed skeleton bounds, nothing is claimed outside them',
+   text='bounded, solver-decided: every feasible path of the parser over symbolic document skeletons (names, presence, repetition, element form, text kind, attribute subsets, document split symbolic) is executed from /repo\'s source and z3 shows PC and not(two-sided inference oracle) unsatisfiable; holds for every document inside the listed skeleton bounds. Beyond them, an inductive step harness (one more occurrence from an ARBITRARY pre-state of the schema node: symbolic tags, flags, 32-bit counters, vector order) extends the result to any number of occurrences/documents at one level; nothing else is claimed outside the bounds',
    design='§4 C03, §3.1, §3.3', technique='symbolic execution of the real source (own executor over syn AST) + z3 per-path assertion checking; native replay of counterexamples'),
 }
 NOT_APPLICABLE = {
@@ -90,7 +90,7 @@ def main():
              'kind_free_text': 'Kani 0.68 / CBMC 6.11 proof harnesses over the compiled code, appended as child modules to a scratch copy of /repo/src'},
         ],
         'checks': checks,
-        'notes': 'All checks are solver-based (bounded): see DESIGN.md. Exit 0 = held on everything explored (INCONCLUSIVE lines are informational and never a verdict); exit 1 + VIOLATION line only after native replay confirmed the counterexample; exit 2 = infrastructure failure.',
+        'notes': 'All checks are solver-based (bounded): see DESIGN.md (§11 describes the machinery as built, the defects found and fixed, and which checks flag which of the 42 seeded changes under seeded/). 1 % of the assertion queries are re-decided by cvc5. Exit 0 = held on everything explored (INCONCLUSIVE lines are informational and never a verdict); exit 1 + VIOLATION line only after native replay confirmed the counterexample; exit 2 = infrastructure failure.',
         'not_applicable': na,
     }
     json.dump(man, open(os.path.join(VERIF, 'MANIFEST.json'), 'w'), indent=1)
